@@ -35,6 +35,42 @@ def all_queries(cls):
     return sorted(m for m in cand if m not in SKIP_QUERIES)
 
 
+ARG_RECIPES = {"node_list": [[0, 2, 4], [1, 3]], "node_list1": [[0, 2, 4], [1, 3]],
+               "node_list2": [[1, 3, 5], [0, 4]]}
+
+
+def arg_queries(cls, argsets):
+    """public methods with *required* parameters, called with recipes keyed by parameter name
+    (node lists of InteractingNetworks and of everything derived from it); optional parameters
+    named in `argsets` give one more variant each"""
+    import inspect
+    out = []
+    for name in dir(cls):
+        if name.startswith("_") or name in NOT_QUERIES or name in SKIP_QUERIES or \
+                name.startswith(MUTATOR_PREFIXES + CTOR_PREFIXES) or \
+                any(t in name.lower() for t in RANDOM_TOKENS):
+            continue
+        fn = inspect.getattr_static(cls, name)
+        if isinstance(fn, (staticmethod, classmethod, property)) or not callable(getattr(cls, name)):
+            continue
+        try:
+            params = list(inspect.signature(getattr(cls, name)).parameters.values())[1:]
+        except (TypeError, ValueError):
+            continue
+        req = [p for p in params if p.default is inspect.Parameter.empty
+               and p.kind in (p.POSITIONAL_OR_KEYWORD, p.POSITIONAL_ONLY)]
+        if not req or any(p.name not in ARG_RECIPES for p in req):
+            continue
+        for k in range(2):
+            kw = {p.name: ARG_RECIPES[p.name][k] for p in req}
+            out.append((name, kw))
+            if k == 0:
+                for p in params:
+                    for v in argsets.get(p.name, []) if p not in req else []:
+                        out.append((name, dict(kw, **{p.name: v})))
+    return out
+
+
 class Scratch:
     """MutualInfoClimateNetwork stores its matrix in a file of the working directory and loads
     it again in the next constructor call: fresh twins are built in an empty directory"""
@@ -128,6 +164,10 @@ def order_oracle(ctx, cname, spec, used, quick):
     with Scratch() as scratch:
         pristine = quiet(spec["make"], rng)
         queries = [(m, kw) for m in all_queries(cls) for kw in query_variants(cls, m, spec["argsets"])]
+        if pristine.__dict__.get("N", getattr(pristine, "N", 0)) >= 6:
+            queries += arg_queries(cls, spec["argsets"] or {"link_attribute": ["w"]}
+                                   if hasattr(pristine, "graph") and "w" in attr_names(pristine)
+                                   else spec["argsets"])
         try:
             scratch.clean()
             a = quiet(spec["twin"], pristine)
@@ -158,6 +198,8 @@ def order_oracle(ctx, cname, spec, used, quick):
                 ctx.count(f"{cname}:order:query-raises")
                 continue
             used.setdefault(cname, set()).add(m)
+            if any(k in ARG_RECIPES for k in kw):
+                ctx.count(f"{cname}:order:node-list-queries")
             ctx.case(("order", cname, m, str(kw)), True,
                      {"class": cname, "query": m, "orders": "forward/backward"})
             if same(va[i], vb[i]) or nfail >= 3:
